@@ -289,3 +289,84 @@ def ok_outcomes(an):
             v = T.payload(t, "Ok")
             out.append((v, st))
     return out
+
+
+def failure_causes(an):
+    """Canonical description of every error outcome of a function returning Result: why does it fail?
+    ('conv', x)            a try_into conversion of x failed
+    ('entsize', T, e)      validate_entsize::<T>(.., e) failed
+    ('parse', P, off, d)   P::parse_at(d @ off) failed
+    ('read', a, b)         the bytes [a, b) of the file / stream could not be read (slice get -> None, read_bytes/load_bytes -> Err)
+    ('slice', buf, a, b)   buf.get(a..b) -> None on some other buffer
+    ('overflow', expr)     a checked arithmetic operation overflowed
+    ('callee', f, args)    an in-crate callee's error is propagated
+    ('explicit', variant, payload, guards)  an error constructed under an explicit condition (guards = comparison facts of that path)"""
+    out = []
+    for t, st in an.ret_leaves() or []:
+        if not (t.op == "agg" and t.args[3] == "Err"):
+            continue
+        out.append((classify_failure(an, t, st), t, st))
+    return out
+
+
+def _is_filebuf(n):
+    return n == ("fld", ("p", 1), "data") or n == ("p", 2) or n == ("p", 1)
+
+
+def classify_failure(an, t, st):
+    e = t.args[4][0]
+    inner = e
+    if e.op == "call" and e.args[0] == "convert::From::from":
+        inner = e.args[2][0]
+    if inner.op == "payload" and inner.args[1] == "Err":
+        src = inner.args[0]
+        if src.op == "call":
+            f, g, args = src.args
+            if f == "option::Option::ok_or_else":
+                # the error is produced exactly when the Option is None
+                x = args[0]
+                if x.op == "call" and "::checked_" in x.args[0]:
+                    return ("overflow", norm(Term("payload", x, "Some")))
+                if x.op == "call" and x.args[0] == "[T]::get":
+                    buf, r = x.args[2]
+                    rn = norm(r)
+                    if rn[0] == "agg" and len(rn[3]) == 2:
+                        bn = norm(buf)
+                        return ("read", rn[3][0], rn[3][1]) if _is_filebuf(bn) else ("slice", bn, rn[3][0], rn[3][1])
+            if f == "convert::TryInto::try_into":
+                return ("conv", norm(args[0]))
+            if f == "parse::ParseAt::validate_entsize" or f.endswith(" as parse::ParseAt>::validate_entsize"):
+                T_ = g[0] if f == "parse::ParseAt::validate_entsize" else f[1:].split(" as ")[0]
+                return ("entsize", T_, norm(args[1]))
+            if f == "parse::ParseAt::parse_at" or f.endswith(" as parse::ParseAt>::parse_at"):
+                P_ = g[0] if f == "parse::ParseAt::parse_at" else f[1:].split(" as ")[0]
+                return ("parse", P_, norm(args[2]), norm(args[3]))
+            if f == "elf_stream::CachingReader::read_bytes":
+                return ("read", norm(args[1]), norm(args[2]))
+            if f == "elf_stream::CachingReader::load_bytes":
+                r = norm(args[1])
+                if r[0] == "agg" and len(r[3]) == 2:
+                    return ("read", r[3][0], r[3][1])
+            return ("callee", f, tuple(norm(a) for a in args))
+        return ("propagated", norm(src))
+    if inner.op == "agg":
+        variant = inner.args[3]
+        if variant == "IntegerOverflow":
+            ovs = [an.simp(f[1], st.facts) for f in st.facts if f[0] == "var" and f[2] == "None" and f[1].op == "call" and "::checked_" in f[1].args[0]]
+            if len(ovs) >= 1:
+                return ("overflow", tuple(sorted((norm(Term("payload", x, "Some")) for x in ovs), key=repr))[-1])
+        if variant == "SliceReadError":
+            for f in st.facts:
+                if f[0] == "var" and f[2] == "None" and f[1].op == "call" and f[1].args[0] == "[T]::get":
+                    g2 = an.simp(f[1], st.facts)
+                    buf, r = g2.args[2]
+                    rn = norm(r)
+                    pay = norm(inner.args[4][0]) if inner.args[4] else None
+                    if rn[0] == "agg" and len(rn[3]) == 2:
+                        a, b = rn[3]
+                        if pay is None or pay == ("agg", "tuple", None, (a, b)):
+                            bn = norm(buf)
+                            return ("read", a, b) if _is_filebuf(bn) else ("slice", bn, a, b)
+        guards = tuple(sorted(((f[0], norm(f[1])) for f in st.facts if f[0] in ("true", "false") and f[1].op == "bin"), key=repr))
+        return ("explicit", variant, tuple(norm(x) for x in inner.args[4]), guards)
+    return ("other", norm(e))
